@@ -635,8 +635,9 @@ def hostile_script(rng, logdir):
             op['outputs'] = [[rng.randrange(4), rng.choice([1, 2]), hostile_bytes()] for _ in range(rng.randrange(1, 3))]
         if rng.random() < 0.3:
             name = rng.choice(['read', 'close', 'waitpid', 'write'])
-            op['faults'] = {name: [rng.choice([0, errno.EINTR, errno.EAGAIN, errno.EBADF, errno.EIO, errno.ENOMEM,
-                                               errno.ECHILD, errno.EPERM, errno.EPIPE]) for _ in range(rng.randrange(1, 4))]}
+            op['faults'] = dict(op.get('faults', {}))
+            op['faults'][name] = [rng.choice([0, errno.EINTR, errno.EAGAIN, errno.EBADF, errno.EIO, errno.ENOMEM,
+                                               errno.ECHILD, errno.EPERM, errno.EPIPE]) for _ in range(rng.randrange(1, 4))]
     t = s['ops'][-1]['now']
     s['ops'] += [{'now': t + 2, 'acts': [['exit', 0, 3]]}, {'now': t + 4, 'acts': []}, {'now': t + 8, 'acts': []},
                  {'now': t + 10, 'acts': []}]
